@@ -642,7 +642,28 @@ class WalletWorld:
         ch = self.ch
         h = self.H(wi)
         cands = sorted(x for x in wi.sent if self.chain.txs[x].height is None)
-        how = ch.pick('del', ['transaction_delete', 'transactions_remove_unconfirmed'])
+        how = ch.pick('del', ['transaction_delete', 'transactions_remove_unconfirmed'] +
+                      (['delete_funding'] if self.focus == 'C08' else []))
+        if how == 'delete_funding':
+            # forget a transaction whose output an acknowledged send consumed, then let the wallet find it again
+            prevs = sorted({op_[0] for op_ in wi.acked_spent})
+            if not prevs:
+                return
+            txid = prevs[ch.index('del_f', len(prevs))]
+            self.w.op('transaction_delete_funding', wallet=wi.name, txid=txid[:16])
+            ok, r = self.call(wi, 'transaction_delete', lambda: h.transaction_delete(txid))
+            ok2, t2 = self.observe(lambda: self.H(wi).transaction(txid))
+            if ok2 and t2 is None:
+                # (it may itself be one of the wallet's sends: then the wallet was told to forget that send)
+                for op_, (tx_, _) in list(wi.acked_spent.items()):
+                    if tx_ == txid:
+                        del wi.acked_spent[op_]
+                wi.sent.pop(txid, None)
+                wi.seen_txids.discard(txid)
+            if ok:
+                self.w.outcome('deleted', n=1)
+                ok, r = self.call(wi, 'utxos_update', lambda: h.utxos_update(**self.acct(wi)))
+            return
         if how == 'transaction_delete':
             if not cands:
                 return
